@@ -47,6 +47,10 @@ def third_reader():
     for line in mass.isotope_mass.split("\n"):
         f = line.split(",")
         z, _, a = f[0].split("-")
+        # one row per nuclide, in order of (Z, A): a row out of order is a row filed under another nuclide's key
+        if imass and (int(z), int(a)) <= max(imass):
+            ROW_KEYS.append("row %r of the isotope mass table is keyed (Z, A) = (%s, %s) after the row of %r: a nuclide has two rows "
+                            "or a row is filed under the wrong mass number" % (line[:40], z, a, max(imass)))
         imass[(int(z), int(a))] = lead(f[1])
         iunc[(int(z), int(a))] = lead_unc(f[1])
         if int(z) not in weight:
